@@ -118,6 +118,7 @@ func runBatch(prop string, seed uint64, from, to int, out string, maxS float64, 
 	bo := &BatchOut{Prop: prop, Seed: seed, From: from, To: to, Done: from, Stats: NewStats(), Configs: names}
 	sigSeen := map[string]bool{}
 	code := 0
+	earlier := map[string][][]Op{} // C15: the last histories per configuration in this process
 	for i := from; i < to; i++ {
 		if maxS > 0 && time.Since(t0).Seconds() > maxS {
 			break
@@ -127,6 +128,16 @@ func runBatch(prop string, seed uint64, from, to int, out string, maxS float64, 
 		src := choice.New(choice.Mix(seed, uint64(i)))
 		v := check(e, src, bo.Stats)
 		bo.Done = i + 1
+		var prelude [][]Op
+		if prop == "C15" {
+			prelude = append(prelude, earlier[e.Name]...)
+			h := append(earlier[e.Name], append([]Op{}, LastOps15...))
+			if len(h) > 8 {
+				// the first history of the process (one-time initialisations happen there) and the last seven
+				h = append([][]Op{h[0]}, h[len(h)-7:]...)
+			}
+			earlier[e.Name] = h
+		}
 		if evlog {
 			d := "ok"
 			if v != nil {
@@ -142,6 +153,7 @@ func runBatch(prop string, seed uint64, from, to int, out string, maxS float64, 
 				if !stuck && shrinkBudget > 0 && !strings.HasPrefix(v.Sig, "data-race:") { // a race is reported once per process: it cannot be re-observed here
 					shrinkViolation(check, e, v, shrinkBudget)
 				}
+				v.Prelude = prelude
 				bo.Violations = append(bo.Violations, v)
 			}
 		}
@@ -212,6 +224,26 @@ func replayFile(path string) int {
 	}
 	if v.Property == "C15" {
 		nv := runC15(e, v.Plan.Tasks[0], nil)
+		ks := []int{1, 2, 4, len(v.Prelude), -1}
+		for i, k := range ks {
+			if nv != nil || k > len(v.Prelude) || (i > 0 && k > 0 && k <= ks[i-1]) || len(v.Prelude) == 0 {
+				continue
+			}
+			// not on its own: after the k histories that preceded it in the same process (each on a container of
+			// its own; the reference model starts afresh at every New); -1: after the process's first history only
+			var ops []Op
+			pre := v.Prelude[:1]
+			if k > 0 {
+				pre = v.Prelude[len(v.Prelude)-k:]
+			}
+			for _, h := range pre {
+				ops = append(ops, h...)
+			}
+			ops = append(ops, v.Plan.Tasks[0]...)
+			if nv = runC15(e, ops, nil); nv != nil {
+				fmt.Printf("note: the history alone does not show it; it does after %d earlier histories on other containers of the same type in one process (state shared between containers)\n", k)
+			}
+		}
 		if nv == nil {
 			fmt.Printf("NOT-REPRODUCED property=%s recorded-sig=%s\n", v.Property, v.Sig)
 			return 0
